@@ -2142,9 +2142,27 @@ static Type check_expression_impl(ASTNode *expr, Environment *env) {
                 );
             }
 
-            /* For if expressions, we need to infer the type from the blocks */
-            /* This is simplified - just return UNKNOWN for now */
-            /* A proper implementation would need to analyze the blocks */
+            /* Branches of the form `{ expr }` (or a chained `else if`) give the
+             * if expression its type; both must agree */
+            ASTNode *then_value = if_branch_value(expr->as.if_stmt.then_branch);
+            ASTNode *else_value = if_branch_value(expr->as.if_stmt.else_branch);
+            if (then_value && else_value) {
+                Type then_type = check_expression(then_value, env);
+                Type else_type = check_expression(else_value, env);
+                if (then_type != else_type && then_type != TYPE_UNKNOWN && else_type != TYPE_UNKNOWN) {
+                    emit_context_error(
+                        "TYPE MISMATCH",
+                        expr->line,
+                        expr->column,
+                        1,
+                        "Both branches of an if expression must have the same type.",
+                        "Make the then and else branches evaluate to the same type."
+                    );
+                }
+                return then_type != TYPE_UNKNOWN ? then_type : else_type;
+            }
+
+            /* Statement blocks: no value to infer a type from */
             return TYPE_UNKNOWN;
         }
 
